@@ -1,3 +1,43 @@
-(* Engine entry points for C18: run_c18 sub-op case.  (stub until the property's model exists) *)
-From Pan Require Import Base.Common Base.Sx.
-Definition run_c18 (sub : Z) (x : sx) : sx := SL [SZ (-1)].
+(* Engine entry points for C18: decode an S-expression case, run the model, encode the result.
+   Cells are strings (code-point lists); numbers use Model/Tsv.v's reference codec. *)
+From Pan Require Import Base.Common Base.Sx Model.Stats Model.Tsv.
+
+Definition ofName (n : name) : sx := ofZs n.
+Definition ofNames (l : list name) : sx := SL (map ofName l).
+Definition sNames (s : sx) : list name := map sZs (sL s).
+Definition ofCol (c : col) : sx := SL (map (ofOpt ofQ) c).
+Definition ofVd (vd : vdict) : sx :=
+  SL (map (fun ggd => SL [ofName (fst ggd); SL (map (fun mc => SL [ofName (fst mc); ofCol (snd mc)]) (snd ggd))]) vd).
+Definition ofStat (st : stat) : sx :=
+  SL [ofNames (st_subjects st); ofNames (groupnames st); ofNames (metricnames st); ofVd (st_vd st)].
+Definition ofRes18 {A} (f : A -> sx) (r : res A) : sx :=
+  match r with Ok a => SL [SZ 0; f a] | Err c => SL [SZ 1; SZ c] end.
+Definition ofTable (t : list (list name)) : sx := SL (map ofNames t).
+Definition sTable (s : sx) : list (list name) := map sNames (sL s).
+
+(* rdict = ((key fval) ...) ; subject = (name ((group rdict) ...)) *)
+Definition sRdict (s : sx) : rdict := map (fun kv => (sZs (sNth 0 kv), sF (sNth 1 kv))) (sL s).
+Definition sSubject (s : sx) : subject :=
+  let per_group := map (fun gr => (sZs (sNth 0 gr), sRdict (sNth 1 gr))) (sL (sNth 1 s)) in
+  (sZs (sNth 0 s), fun g => match alookup g per_group with Some d => d | None => [] end).
+
+(* 1: (groups ev_keys log_times subjects) -> (keys_ok written-table load-result) *)
+Definition run_write (x : sx) : sx :=
+  let G := sNames (sNth 0 x) in
+  let K := agg_keys (sNames (sNth 1 x)) (sB (sNth 2 x)) in
+  let subs := map sSubject (sL (sNth 3 x)) in
+  let t := write toy_print G K subs in
+  SL [ofB (keys_ok K); ofTable t; ofRes18 ofStat (load toy_parse t)].
+(* 2: table of cells -> load-result *)
+Definition run_load (x : sx) : sx := ofRes18 ofStat (load toy_parse (sTable x)).
+(* 3: lower-cased given group names -> dict keys *)
+Definition run_groups (x : sx) : sx := ofNames (class_group_names (fun n => n) (sNames x)).
+(* 4: header cell -> split *)
+Definition run_split (x : sx) : sx :=
+  ofRes18 (fun gm => SL [ofName (fst gm); ofName (snd gm)]) (split_cell (sZs x)).
+
+Definition run_c18 (sub : Z) (x : sx) : sx :=
+  if sub =? 1 then run_write x else
+  if sub =? 2 then run_load x else
+  if sub =? 3 then run_groups x else
+  if sub =? 4 then run_split x else SL [SZ (-1)].
